@@ -256,6 +256,9 @@ impl Brc20ProgDatabase {
         //
         // TODO: This is a temporary solution, we can potentially avoid using a mutex for reads
         // TODO: Also, test this, maybe it's not that slow?
+        if block_number_to < block_number_from {
+            return Err("Invalid block range, toBlock is lower than fromBlock".into());
+        }
         if block_number_to - block_number_from > 5 {
             return Err("Block range is too large, please limit it to 5 blocks".into());
         }
